@@ -471,7 +471,7 @@ def c15(tier):
                 ck.violation("storage calls exceed the bound", dict(cid, calls=r["cn"][k], bound=line["mc"][r["d"] - 1]))
             elif 0 < k <= r["n"] and len(ck.samples) < 4:
                 ck.sample(cid)
-        # the same cancellation through the API handlers, with storage that is slow (4 s) unless its context is done
+        # the same cancellation through the API handlers, with storage that is slow (8 s) unless its context is done
         for tr, k, ms, status in r.get("tc") or []:
             if status == "skipped":
                 continue
@@ -482,9 +482,9 @@ def c15(tier):
                 ck.violation("a cancelled %s check did not return within 10 s" % tr, cid)
             elif str(status).startswith("panic"):
                 ck.violation("a cancelled %s check panicked: %s" % (tr, status), cid)
-            elif ms > 2000:
+            elif ms > 4000:
                 ck.violation("a %s check whose request context was cancelled before storage call %d returned only after %d ms: the cancellation "
-                             "does not reach the storage calls (they return at once when their context is done, after 4 s otherwise)" % (tr, k, ms), cid)
+                             "does not reach the storage calls (they return at once when their context is done, after 8 s otherwise)" % (tr, k, ms), cid)
             ck.nontrivial.add((r["g"], r["q"], r["d"], tr, k))
     # 3. faults: the check still returns
     inp = {"defs": defs, "groups": harness_groups(groups), "gdepth": dmax, "rdepths": rdepths[-1:], "mode": "fault", "widths": wlast}
